@@ -108,3 +108,28 @@ def parse_explanation(lines):
 def ext_weight(g, sol, worlds):
     """Total weight of the worlds (list of (w, true atoms, node values)) extending the literal list `sol`."""
     return sum(w for (w, true, val) in worlds if all((abs(l) in true) == (l > 0) for l in sol))
+
+
+def load_program(obj):
+    """A program dict read back from a JSON replay (lists -> tuples, probabilities -> Fraction)."""
+    from fractions import Fraction
+
+    def tup(x):
+        return tuple(tup(y) for y in x) if isinstance(x, list) else x
+
+    def stmt(s):
+        s = list(s)
+        if s[0] in ("pf", "prule"):
+            s[1] = Fraction(s[1])
+        if s[0] == "ad":
+            s[1] = [(Fraction(p), tup(h)) for p, h in s[1]]
+            s[2] = [tup(b) for b in s[2]]
+            return tuple(s)
+        if s[0] == "rule":
+            return (s[0], tup(s[1]), [tup(b) for b in s[2]])
+        if s[0] == "prule":
+            return (s[0], s[1], tup(s[2]), [tup(b) for b in s[3]])
+        return tuple(tup(x) for x in s)
+    return dict(consts=list(obj["consts"]), preds={k: tuple(v) for k, v in obj["preds"].items()},
+                stmts=[stmt(s) for s in obj["stmts"]], queries=[tup(q) for q in obj["queries"]],
+                evidence=[(tup(a), bool(v)) for a, v in obj["evidence"]])
